@@ -158,3 +158,172 @@ def fj_variants(rel, text):
     return out
 
 
+
+
+# ---------------------------------------------------------------- other mechanical, behaviour-preserving rewrites (python)
+
+def _simple(e: ast.AST) -> bool:
+    """an operand whose evaluation has no effect and cannot raise differently when moved across its sibling: names, attributes of
+    names, constants, subscripts / arithmetic of those, len(..) of those"""
+    if isinstance(e, (ast.Name, ast.Constant)):
+        return True
+    if isinstance(e, ast.Attribute):
+        return _simple(e.value)
+    if isinstance(e, ast.UnaryOp):
+        return _simple(e.operand)
+    if isinstance(e, ast.BinOp):
+        return _simple(e.left) and _simple(e.right)
+    if isinstance(e, ast.Call) and isinstance(e.func, ast.Name) and e.func.id == 'len' and len(e.args) == 1 and not e.keywords:
+        return _simple(e.args[0])
+    if isinstance(e, ast.Tuple):
+        return all(_simple(x) for x in e.elts)
+    return False
+
+
+_FLIP = {ast.Lt: ast.Gt, ast.Gt: ast.Lt, ast.LtE: ast.GtE, ast.GtE: ast.LtE, ast.Eq: ast.Eq, ast.NotEq: ast.NotEq}
+
+
+def py_rewrites(rel: str, text: str, mode: str) -> List[Any]:
+    """(function, new text) per function, rewritten by ast + unparse of that function only:
+      flip    every two-operand comparison with simple operands is turned round (a < b -> b > a, a == b -> b == a)
+      invert  every if / else with both branches becomes `if not (c): else-branch else: then-branch`; every conditional expression likewise
+      name    the condition of every `if` statement is bound to a fresh local first"""
+    tree = ast.parse(text)
+    lines = text.split('\n')
+    out = []
+
+    class Flip(ast.NodeTransformer):
+        def visit_Compare(self, n: ast.Compare) -> ast.AST:
+            self.generic_visit(n)
+            if len(n.ops) == 1 and type(n.ops[0]) in _FLIP and _simple(n.left) and _simple(n.comparators[0]):
+                return ast.Compare(left=n.comparators[0], ops=[_FLIP[type(n.ops[0])]()], comparators=[n.left])
+            return n
+
+    class Invert(ast.NodeTransformer):
+        def visit_If(self, n: ast.If) -> ast.AST:
+            self.generic_visit(n)
+            if n.orelse and not (len(n.orelse) == 1 and isinstance(n.orelse[0], ast.If)):
+                return ast.If(test=ast.UnaryOp(op=ast.Not(), operand=n.test), body=n.orelse, orelse=n.body)
+            return n
+
+        def visit_IfExp(self, n: ast.IfExp) -> ast.AST:
+            self.generic_visit(n)
+            return ast.IfExp(test=ast.UnaryOp(op=ast.Not(), operand=n.test), body=n.orelse, orelse=n.body)
+
+    class NameCond(ast.NodeTransformer):
+        def __init__(self) -> None:
+            self.k = 0
+
+        def _block(self, stmts: List[ast.stmt]) -> List[ast.stmt]:
+            res: List[ast.stmt] = []
+            for st in stmts:
+                st = self.visit(st)
+                # (an `elif` is an If inside orelse: naming its condition there would hoist it in front of the chain; left alone)
+                if isinstance(st, ast.If) and not isinstance(st.test, (ast.Name, ast.Constant)):
+                    self.k += 1
+                    nm = f'cond_{self.k}_rn'
+                    res.append(ast.Assign(targets=[ast.Name(id=nm, ctx=ast.Store())], value=st.test))
+                    st.test = ast.Name(id=nm, ctx=ast.Load())
+                res.append(st)
+            return res
+
+        def generic_visit(self, node: ast.AST) -> ast.AST:
+            for f in ('body', 'orelse', 'finalbody'):
+                v = getattr(node, f, None)
+                if isinstance(v, list) and v and isinstance(v[0], ast.stmt):
+                    if f == 'orelse' and isinstance(node, ast.If) and len(v) == 1 and isinstance(v[0], ast.If):
+                        v[0] = self.generic_visit(v[0])          # elif chain: only descend
+                        continue
+                    setattr(node, f, self._block(v))
+            if isinstance(node, ast.Try):
+                for h in node.handlers:
+                    h.body = self._block(h.body)
+            return node
+
+    def visit(node: ast.AST, prefix: str) -> None:
+        for ch in ast.iter_child_nodes(node):
+            if isinstance(ch, ast.ClassDef):
+                visit(ch, prefix + ch.name + '.')
+            elif isinstance(ch, (ast.FunctionDef, ast.AsyncFunctionDef)):
+                q = prefix + ch.name
+                import copy
+                fn = copy.deepcopy(ch)
+                before = ast.dump(fn)
+                for md in (['flip', 'invert', 'name'] if mode == 'all' else [mode]):
+                    tr = {'flip': Flip, 'invert': Invert, 'name': NameCond}[md]()
+                    fn = tr.generic_visit(fn) if md == 'name' else tr.visit(fn)
+                if mode == 'all':
+                    # ... and every local renamed on top
+                    from ..localnames import py_locals
+                    locs = py_locals(fn)
+                    for x in ast.walk(fn):
+                        if isinstance(x, ast.Name) and x.id in locs and not x.id.endswith('_rn'):
+                            x.id = x.id + '_rn'
+                ast.fix_missing_locations(fn)
+                if ast.dump(fn) != before:
+                    # replace the function's lines (decorators included) by the unparsed function, re-indented
+                    first = min([d.lineno for d in ch.decorator_list] + [ch.lineno])
+                    indent = lines[ch.lineno - 1][:len(lines[ch.lineno - 1]) - len(lines[ch.lineno - 1].lstrip())]
+                    new_src = '\n'.join(indent + ln if ln else ln for ln in ast.unparse(fn).split('\n'))
+                    new = '\n'.join(lines[:first - 1] + [new_src] + lines[ch.end_lineno:])
+                    try:
+                        compile(new, rel, 'exec')
+                        out.append((q, new))
+                    except SyntaxError:
+                        pass
+                # nested functions are rewritten with their parent
+    visit(tree, '')
+    return out
+
+
+# ---------------------------------------------------------------- the same for C (text edits at the positions clang reports)
+
+_CFLIP = {'<': '>', '>': '<', '<=': '>=', '>=': '<=', '==': '==', '!=': '!='}
+
+
+def c_rewrites(rel: str, text: str, mode: str) -> List[Any]:
+    """(function, new text): per function, every comparison with side-effect free operands turned round (mode 'flip'), or every
+    if / else with both branches inverted (mode 'invert')"""
+    from ..cfacts import CUnit, walk
+    from .. import localnames as ln
+    cu = CUnit(Repo())
+    text = cu.text
+    out = []
+
+    def pure(n: Dict[str, Any]) -> bool:
+        return not any(x.get('kind') in ('CallExpr', 'CompoundAssignOperator') or (x.get('kind') == 'UnaryOperator' and x.get('opcode') in ('++', '--'))
+                       or (x.get('kind') == 'BinaryOperator' and x.get('opcode') == '=') for x in walk(n))
+
+    def in_macro(n: Dict[str, Any]) -> bool:
+        r = n.get('range', {})
+        return any('spellingLoc' in r.get(k, {}) or 'expansionLoc' in r.get(k, {}) for k in ('begin', 'end'))
+    for fname, fn in ln.c_functions(cu.tu).items():
+        edits: List[Any] = []
+        for n in walk(fn):
+            if mode == 'flip' and n.get('kind') == 'BinaryOperator' and n.get('opcode') in _CFLIP and len(n.get('inner', [])) == 2:
+                a, b = n['inner']
+                sa, sb, sn = cu._span(a), cu._span(b), cu._span(n)
+                if not (sa and sb and sn) or in_macro(n) or in_macro(a) or in_macro(b) or not pure(a) or not pure(b):
+                    continue
+                mid = text[sa[1]:sb[0]]
+                if mid.strip() != n['opcode']:
+                    continue
+                edits.append((sn[0], sn[1], f'{text[sb[0]:sb[1]]} {_CFLIP[n["opcode"]]} {text[sa[0]:sa[1]]}'))
+            if mode == 'invert' and n.get('kind') == 'IfStmt' and len(n.get('inner', [])) == 3 and not n.get('hasVar'):
+                c, t, e = n['inner']
+                sc, st, se = cu._span(c), cu._span(t), cu._span(e)
+                if not (sc and st and se) or in_macro(n) or in_macro(c) or t.get('kind') != 'CompoundStmt' or e.get('kind') != 'CompoundStmt':
+                    continue
+                edits.append((sc[0], se[1], f'!({text[sc[0]:sc[1]]}){text[sc[1]:st[0]]}{text[se[0]:se[1]]}{text[st[1]:se[0]]}{text[st[0]:st[1]]}'))
+        # innermost-first is not needed: keep only edits that do not overlap an earlier-kept one (outermost wins by order of walk)
+        kept: List[Any] = []
+        for e_ in sorted(edits, key=lambda t: (t[0], -t[1])):
+            if all(e_[0] >= k_[1] or e_[1] <= k_[0] for k_ in kept):
+                kept.append(e_)
+        if not kept:
+            continue
+        new = text
+        for a_, b_, rep_ in sorted(kept, reverse=True):
+            new = new[:a_] + rep_ + new[b_:]
+        out.append((fname, new))
+    return out
